@@ -56,6 +56,11 @@ class World:
                 if f.path not in self.fns:
                     self.fns[f.path] = f
                     self.crate_of[f.path] = c
+        # callee paths in MIR carry generic arguments (`ChunkReader::<R>::remaining`), definitions are keyed by their own path:
+        # both are compared modulo generic argument lists
+        self.norm2path = {}
+        for p_ in self.fns:
+            self.norm2path.setdefault(norm(p_), p_)
         self.adt_fields = {}
         for c in crates:
             for a in c.items["adts"]:
@@ -143,6 +148,7 @@ class FnTaint:
                     if d in tainted:
                         continue
                     c = ncallee(t) or ""
+                    c = w.norm2path.get(c, c)
                     hit = None
                     if READ_PRIM.search(c) or (c.startswith("binrw::") and READ_PRIM.search(mirg.callee_decl(t) or "")):
                         # (binrw's own impls for primitives / arrays / tuples resolve to `binrw::binread::impls::<impl BinRead for u16>::read_options`)
@@ -195,7 +201,7 @@ class FnTaint:
             return "field " + self._field_name(op[1])
         return None
 
-    def sanitised(self, op, bb, strict=False):
+    def sanitised(self, op, bb, strict=False, asserts=True, zero_test=False):
         """generous: any dominating ordered comparison on the value / an ancestor / a sibling copy, or a sanitising call in its derivation.
         strict=True: "related value" means sharing an *integer-typed* ancestor (not merely the same struct reference / iterator)"""
         f = self.fn
@@ -227,10 +233,19 @@ class FnTaint:
                     for o2 in mirg.rvalue_operands(payload[2]):
                         if o2[0] in ("c", "m") and pproj(o2[1]):
                             fields.add((plocal(o2[1]), tuple(p for p in pproj(o2[1]) if isinstance(p, int))))
+        def _same(o2, depth=0):
+            # the operand is the sink value itself: the same field place, or a projection-free local that is an ancestor /
+            # a plain copy of that field
+            if pproj(o2[1]):
+                return (plocal(o2[1]), tuple(p for p in pproj(o2[1]) if isinstance(p, int))) in fields
+            if fields:
+                return depth < 3 and any(k_ == "assign" and p_[2][0] in ("use", "cast") and any(o3[0] in ("c", "m") and _same(o3, depth + 1) for o3 in mirg.rvalue_operands(p_[2]))
+                                         for _b, k_, p_ in self.du.defs.get(plocal(o2[1]), []))
+            return plocal(o2[1]) in anc
         blocks = f.mir["blocks"]
         for i, b in enumerate(blocks):
             t = b["t"]
-            if t["k"] not in ("switch", "assert"):
+            if t["k"] not in ("switch", "assert") or (t["k"] == "assert" and not asserts):
                 continue
             if i == bb or not self.cfg.dominates(i, bb):
                 continue
@@ -268,6 +283,10 @@ class FnTaint:
                                             for o3 in mirg.rvalue_operands(p3[2]):
                                                 if o3[0] in ("c", "m") and pproj(o3[1]) and (plocal(o3[1]), tuple(p for p in pproj(o3[1]) if isinstance(p, int))) in fields:
                                                     return "dominating comparison on the same field (bb%d)" % i
+                        elif zero_test and t["k"] == "switch" and ((rv[0] == "use" and x == dl) or (rv[0] == "bin" and rv[1] in ("Eq", "Ne") and 0 in (mirg.op_int(rv[2]), mirg.op_int(rv[3])))) and any(
+                                _same(o2) for o2 in mirg.rvalue_operands(rv) if o2[0] in ("c", "m")):
+                            # `if x == 0 { refill / bail }` before `x - 1`: the only value the decrement cannot take is handled
+                            return "dominating zero test on the same value (bb%d)" % i
                         elif rv[0] in ("un", "use"):
                             for o2 in mirg.rvalue_operands(rv):
                                 if op_local(o2) is not None:
@@ -292,6 +311,36 @@ class FnTaint:
         return None
 
 
+def _return_sanitised(ft, f):
+    """a validating helper (`fn checked_count(n) -> Result<usize> { if n > limit { return Err } Ok(n) }`): the returned value is
+    input-derived, but every return is dominated by an ordered comparison / check on it (the same generous sanitiser sinks use),
+    so callers receive a bounded value.  Only integer-returning helpers (possibly wrapped in Result/Option) qualify."""
+    rty = f.crate.ty(f.mir["locals"][0][0]) or ""
+    if not re.fullmatch(r"(?:core::result::Result<|core::option::Option<)?\s*(?:u8|u16|u32|u64|usize|i8|i16|i32|i64|isize)\b.*", rty):
+        return False
+    # every *definition* of the return place that carries an input-derived operand must be dominated by the helper's own check
+    # (an early `?` return of an error carries none and may bypass it)
+    n = 0
+    for i, b in enumerate(f.mir["blocks"]):
+        if b.get("cl"):
+            continue
+        for st in b["s"]:
+            if st[0] == "=" and plocal(st[1]) == 0:
+                for o in mirg.rvalue_operands(st[2]):
+                    if ft.operand_tainted(o):
+                        n += 1
+                        if not ft.sanitised(o, i, asserts=False):
+                            return False
+        t = b["t"]
+        if t["k"] == "call" and plocal(t["d"]) == 0:
+            for o in t["a"]:
+                if ft.operand_tainted(o):
+                    n += 1
+                    if not ft.sanitised(o, i, asserts=False):
+                        return False
+    return n > 0
+
+
 def solve(world, max_rounds=12):
     """global fixpoint over param taint, return taint and wire-struct field taint"""
     for _round in range(max_rounds):
@@ -301,7 +350,7 @@ def solve(world, max_rounds=12):
             world.results[path] = ft
             blocks = f.mir["blocks"]
             # return taint
-            if 0 in ft.tainted and path not in world.ret_taint:
+            if 0 in ft.tainted and path not in world.ret_taint and not _return_sanitised(ft, f):
                 world.ret_taint.add(path)
                 changed = True
             # field taint: aggregates and field stores
@@ -343,6 +392,7 @@ def solve(world, max_rounds=12):
                 t = b["t"]
                 if t["k"] == "call":
                     c = ncallee(t) or ""
+                    c = world.norm2path.get(c, c)
                     # read_exact(&mut self.field) style: a byte buffer filled from input taints the field/local it borrows — handled by READ_PRIM on conversion
                     if re.search(r"core::ops::function::Fn(Mut|Once)?::call(_mut|_once)?$", c) and len(t["a"]) == 2:
                         du = mirg.DefUse(f)
